@@ -126,7 +126,7 @@ def script(rng, case, idx):
             rec(label + '.decision', 'decision', None, 'ok')
             return r
         except Exception as e:   # noqa
-            rec(label + '.decision', 'decision', None, type(e).__name__)
+            rec(label + '.decision', 'decision', None, exc_name(e))
             return None
 
     def observe(label, c):
@@ -135,7 +135,7 @@ def script(rng, case, idx):
         try:
             observe_(label, c)
         except Exception as e:   # noqa  - an observer that crashes under this configuration is itself an answer
-            rec(label + '.observer_crashed', 'decision', None, type(e).__name__)
+            rec(label + '.observer_crashed', 'decision', None, exc_name(e))
 
     def observe_(label, c):
         if isinstance(c, C):
@@ -292,7 +292,7 @@ def script(rng, case, idx):
             res = r.bake()
             rec('recipe.decision', 'decision', None, 'ok')
         except Exception as e:   # noqa
-            rec('recipe.decision', 'decision', None, type(e).__name__)
+            rec('recipe.decision', 'decision', None, exc_name(e))
             res = None
         if res is not None:
             nops[0] += 12
@@ -305,7 +305,7 @@ def script(rng, case, idx):
                         try:
                             v = r.get_substance_used(s, tf, u, dests)
                         except Exception as e:   # noqa
-                            v = type(e).__name__
+                            v = exc_name(e)
                         rec(f'recipe.used.{s.name}.{tf}.{u}.{dl}', 'tracking', u, v)
                 for o, on in ((a, 'ra'), (b, 'rb'), (pl, 'rp'), (made, 'made')):
                     for u in ('mL', 'mg', 'umol', 'U'):
@@ -314,13 +314,13 @@ def script(rng, case, idx):
                             rec(f'recipe.flows.{on}.{tf}.{u}.in', 'tracking', u, numpy.asarray(f['in']).tolist())
                             rec(f'recipe.flows.{on}.{tf}.{u}.out', 'tracking', u, numpy.asarray(f['out']).tolist())
                         except Exception as e:   # noqa
-                            rec(f'recipe.flows.{on}.{tf}.{u}', 'tracking', u, type(e).__name__)
+                            rec(f'recipe.flows.{on}.{tf}.{u}', 'tracking', u, exc_name(e))
                         for mode in ('before', 'after'):
                             try:
                                 v = r.get_amount_remaining(o, tf, u, mode)
                                 rec(f'recipe.remaining.{on}.{tf}.{u}.{mode}', 'tracking_raw', u, numpy.asarray(v).tolist() if v is not None else None)
                             except Exception as e:   # noqa
-                                rec(f'recipe.remaining.{on}.{tf}.{u}.{mode}', 'tracking_raw', u, type(e).__name__)
+                                rec(f'recipe.remaining.{on}.{tf}.{u}.{mode}', 'tracking_raw', u, exc_name(e))
             # RecipeStep.dataframe values (container destination, one substance)
             try:
                 st = r.steps[0]
@@ -329,7 +329,7 @@ def script(rng, case, idx):
                 df = st.dataframe(data_source='source', substance=water, unit='mL', mode='delta')
                 rec('recipe.step0.dataframe.water.mL.delta', 'step_dataframe', 'mL', float(df.iloc[0, 0]))
             except Exception as e:   # noqa
-                rec('recipe.step0.dataframe', 'step_dataframe', 'umol', type(e).__name__)
+                rec('recipe.step0.dataframe', 'step_dataframe', 'umol', exc_name(e))
             for k_, stp in enumerate(r.steps):
                 toks = I.tokens(stp.instructions or '')
                 if toks:
@@ -369,6 +369,12 @@ def resolution(cfg, unit):
     if base == 'g':
         return (qmol * 150.0 + qvol * 1200.0) / R.PREFIX[pf]
     return (qmol + qvol) * 1e4 / R.PREFIX[pf]
+
+
+def exc_name(e):
+    """A refusal is a refusal: numpy's LinAlgError (a singular system in a solve) is a ValueError, and which of the two a
+    degenerate request meets depends on rounding - the recorded decision is the class the property speaks of."""
+    return 'ValueError' if isinstance(e, ValueError) else type(e).__name__
 
 
 def coarse_floor(cfg, nops):
